@@ -248,10 +248,10 @@ def run(ck):
             if r["fired"] and (r["class"] != "err" or not r["tables_eq_pre"]):
                 ivo["disagree"] += 1
                 ck.report("fault:helper-failure-lost/%s" % r["helper"],
-                          "`%s` (%s engine): %s injected in the blocking %s thread at %s %d is not reported: Database::run returns %s%s" % (
+                          "`%s` (%s engine): %s injected in the blocking %s thread at %s %d: Database::run returns %s%s" % (
                               r["stmt"], r["engine"], r["kind"], "reader" if r["helper"] == "copy_from" else "writer",
                               "record" if r["helper"] == "copy_from" else "chunk", r["k"], r["class"],
-                              "" if r["tables_eq_pre"] else " and the rows delivered before it are committed"),
+                              " (the failure is not reported)" if r["class"] != "err" else "") + ("" if r["tables_eq_pre"] else " and rows delivered before it stay in the table (also after reopen)"),
                           replay={"engine": r["engine"], "setup": r["setup"], "stmt": r["stmt"], "helper": r["helper"], "k": r["k"], "kind": r["kind"],
                                   "class": r["class"], "tables_eq_pre": r["tables_eq_pre"]})
             m = r.get("model")
@@ -349,7 +349,7 @@ def run(ck):
         # others; a bare disagreement is reported with the pair, one report per statement shape)
         ck.report("corr:stream-model/" + shape, "L9 model and implementation disagree: %s on `%s` fault %s#%s %s" % ("; ".join(d), r["stmt"], r.get("op"), r.get("k"), r.get("kind")),
                   replay={"engine": r["engine"], "setup": r["setup"], "stmt": r["stmt"], "record": {k: v for k, v in r.items() if k not in ("setup",)}},
-                  found_input=(bool(oracle(r)) if r.get("type") == "fault" else r.get("class") != "err"))
+                  found_input=(bool(oracle(r)) if r.get("type") == "fault" else (r.get("class") != "err" or not r.get("tables_eq_pre", True))))
 
     # ---- the channel machine vs the real async_broadcast crate
     chreq = os.path.join(ck.work, "chan.txt")
